@@ -278,7 +278,7 @@ def main(tier):
     n = 300 if tier == 'quick' else 6000
     cases = []
     for k, c in enumerate(corpus_cases()):
-        c = dict(c, id=str(900000 + k)); cases.append(c)
+        c = dict(c, id=str(9000 + k)); cases.append(c)
     cases += [gen_case(run.rng, i, tier) for i in range(n)]
     run.sample({'pool': cases[-1]['pool'], 'ops': cases[-1]['ops'][:8]})
     shard = 300
